@@ -286,7 +286,10 @@ def canon(line):
 # id -> (kinds of property failure the defect can cause, matcher over the ground truth of the graph)
 FINDINGS = {
     "C07-cyclic-local-units": (
-        {"R_true_not_resolvable", "R_issue_not_attached", "U_no_return", "F_no_return"}, lambda t: t.local_units_cycle),
+        # since 85ba0d4 (hasUnitsCycle guard) units with a cyclic definition count as unresolved: hasUnresolvedImports()
+        # returns (true) instead of exhausting the stack; the unguarded scan of flattenModel can still not return
+        {"R_true_not_resolvable", "R_issue_not_attached", "F_no_return", "U_true_after_R_true"},
+        lambda t: t.local_units_cycle),
     "C07-unexamined-dependencies": (
         {"R_true_not_resolvable", "R_issue_not_attached", "U_true_after_R_true"}, lambda t: t.hidden_import),
     "C07-units-history-not-popped": (
@@ -449,9 +452,9 @@ def build_cases(ctx, table):
     nskip = 0
     for n, g in enumerate(graphs):
         t = ig.truth(g)
-        # a cycle among local units costs two stack exhaustions per case (finding C07-cyclic-local-units) and these
-        # graphs are a large share of the enumeration: 1 in 6 of them is run
-        if t.local_units_cycle and n % 6 != 0 and not quick:
+        # before 85ba0d4 a cycle among local units cost two stack exhaustions per case and 5 in 6 of these graphs were
+        # skipped in the thorough tier; hasUnresolvedImports returns now: all are run (C07_SAMPLE_LOCAL_CYCLES=6 restores)
+        if t.local_units_cycle and n % int(os.environ.get("C07_SAMPLE_LOCAL_CYCLES", "1")) != 0 and not quick:
             nskip += 1
             continue
         cases.append(base_case(table, g, n % 2 == 0, "enum%d" % n))
@@ -613,8 +616,8 @@ def run(ctx):
 
 
 # the model as the code is now; set to "pop", "nullref" or "pop,nullref" when fixes/C07-*.diff are committed to /repo
-FIXES_APPLIED = os.environ.get("C07_FIXES", "pop,nullref,kids")
-REPAIR_VARIANTS = ["", "pop", "nullref", "pop,nullref", "pop,nullref,kids"]
+FIXES_APPLIED = os.environ.get("C07_FIXES", "pop,nullref,kids,cycle")
+REPAIR_VARIANTS = ["", "pop", "nullref", "pop,nullref", "pop,nullref,kids", "pop,nullref,kids,cycle"]
 
 
 def judge(ctx, case, cl, ml):
